@@ -399,3 +399,12 @@ Example fix_period_accepted_then_refused :
   fix_run_one 1 3 c = [Some {| f_from := 0; f_to := 11001; f_step := 1 |}; None; None] /\
   fix_nth_result 1 c 0 <> None /\ fix_nth_result 1 c 1 = None.
 Proof. vm_compute. repeat split; congruence. Qed.
+
+(* The model computes in Z, the code in int64: for times within +-2^62 ns (years 1823 .. 2116) and ranges up to 2^62 ns (146 years)
+   no intermediate value or result of the modelled part of Process leaves the int64 range - there is no wrap-around to model. *)
+Theorem fix_period_no_overflow :
+  forall d c, (0 < d <= 2 ^ 62)%Z -> (- 2 ^ 62 <= f_from c < 2 ^ 62)%Z -> (- 2 ^ 62 <= f_to c < 2 ^ 62)%Z ->
+  in_i64 (f_to c - f_from c) /\ in_i64 (Z.quot (f_from c) d * d) /\ in_i64 (Z.quot (f_to c) d * d) /\
+  in_i64 (f_from (fix_window d c)) /\ in_i64 (f_to (fix_window d c)).
+Proof. exact fix_window_in_int64. Qed.
+Print Assumptions fix_period_no_overflow.
